@@ -213,7 +213,7 @@ func confirm(f *interp.Finding, ro replayOutcome) bool {
 		return ro.TimedOut || strings.Contains(ro.Out, "all goroutines are asleep")
 	case "leak":
 		return strings.HasPrefix(ro.LeakLine, "NATIVE-LEAK")
-	case "race":
+	case "race", "frozen-store":
 		return strings.Contains(ro.Out, "WARNING: DATA RACE")
 	}
 	return false
